@@ -81,10 +81,20 @@ def run_case(c):
                 def _next(self, as_bytes):
                     if state["i"] > 0:
                         mark(None, alive())
+                        if state.get("coalesced"):
+                            # two messages came in the read before: the second has no step of its own
+                            state["coalesced"] = False
+                            mark(None, alive())
                     if state["i"] >= len(texts):
                         return b"" if as_bytes else ""
                     t = texts[state["i"]]
                     state["i"] += 1
+                    if as_bytes and c.get("coalesce") == state["i"] - 1 and state["i"] < len(texts):
+                        # the message and the one behind it arrive in ONE read, framed as to_string frames them
+                        frame = '<?xml version="1.0"?>\n%s\n'
+                        t = frame % t + frame % texts[state["i"]]
+                        state["i"] += 1
+                        state["coalesced"] = True
                     return t.encode("latin1") if as_bytes else t
 
             if tr == "tcp":
